@@ -69,6 +69,8 @@ func (e *Encoder) marshal(val reflect.Value, tagType byte) error {
 	return e.writeValue(val, tagType)
 }
 
+var stringerType = reflect.TypeOf((*fmt.Stringer)(nil)).Elem()
+
 func (e *Encoder) writeValue(val reflect.Value, tagType byte) error {
 	switch tagType {
 	default:
@@ -299,6 +301,10 @@ func (e *Encoder) writeValue(val reflect.Value, tagType byte) error {
 				}
 			}
 		case reflect.Map:
+			// entries are named by their keys: a string, or something that says what its name is
+			if kt := val.Type().Key(); kt.Kind() != reflect.String && !kt.Implements(stringerType) {
+				return errors.New("nbt: cannot encode a map with keys of type " + kt.String() + " (neither string nor fmt.Stringer)")
+			}
 			r := val.MapRange()
 			for r.Next() {
 				var tagName string
